@@ -312,7 +312,10 @@ fn c15(agent: &PathBuf, opts: &Opts, sink: &mut Sink) {
         let rt = tokio::runtime::Builder::new_multi_thread().worker_threads(2).enable_all().build().unwrap();
         let irrd = FakeIrrd::start(std::collections::HashMap::new());
         let script = Script {
-            running: fakejunos::running_with_exprs(&stmts),
+            // … next to statements that are not managed (hand-written with the annotation, deactivated,
+            // plain): the fake router applies the subtree filter of the request, so what the agent asks
+            // for decides what its reader gets to see
+            running: fakejunos::with_unmanaged(&fakejunos::running_with_exprs(&stmts)),
             ephemeral: fakejunos::empty_config(),
             fault: None,
         };
@@ -506,7 +509,7 @@ pub fn main(opts: &Opts) {
     let fam = opts
         .extra
         .iter()
-        .find(|e| ["c04", "c07", "c15"].contains(&e.as_str()))
+        .find(|e| ["c04", "c07", "c15", "c16"].contains(&e.as_str()))
         .cloned()
         .unwrap_or_else(|| "c15".into());
     match build_agent(&mut sink) {
@@ -514,6 +517,8 @@ pub fn main(opts: &Opts) {
         Some(agent) => match fam.as_str() {
             "c07" => c07(&agent, opts, &mut sink),
             "c04" => c04(&agent, opts, &mut sink),
+            // C16 end to end: which statements of the running configuration get loaded (same runs)
+            "c16" => c15(&agent, opts, &mut sink),
             _ => c15(&agent, opts, &mut sink),
         },
     }
